@@ -57,8 +57,6 @@ def bindParams (evalDefault : Node â†’ M Val) (fvs : Nat) : List Param â†’ Nat â
     bindParams evalDefault fvs ps (i + 1) args
 
 /-- the context variables of a bound function: `this`, then `super` (only those that are present) -/
-def thisName : List Nat := [116, 104, 105, 115]          -- "this"
-def superName : List Nat := [115, 117, 112, 101, 114]    -- "super"
 def contextVars (this super : Option Val) : List (List Nat Ã— Val) :=
   (match this with | some t => [(thisName, t)] | none => []) ++
   (match super with | some s => [(superName, s)] | none => [])
